@@ -2,7 +2,7 @@
 from __future__ import annotations
 
 from vtools import holes
-from vtools.corpus import HOT, SEEDS
+from vtools.corpus import ESCAPE_EDGE, HOT, SEEDS
 from vtools.ref.selftest import oracle_selftest
 
 INFO = {
@@ -39,5 +39,10 @@ def obligations(tier: str):
         obls.append(holes.obligation("seed%04d.k1" % j, pre, suf, 1, "reject", 120))
         if tier == "thorough":
             obls.append(holes.obligation("seed%04d.k2" % j, pre, suf, 2, "reject", 900))
+    for j, (pre, suf) in enumerate(ESCAPE_EDGE):
+        obls.append(holes.obligation("esc%02d.k0" % j, pre, suf, 0, "both", 60))
+        obls.append(holes.obligation("esc%02d.k1" % j, pre, suf, 1, "reject", 120))
+        if tier == "thorough":
+            obls.append(holes.obligation("esc%02d.k2" % j, pre, suf, 2, "reject", 900))
     obls.append(holes.obligation("reach", "$[1:2", "]", 1, "reject", 60))
     return obls
